@@ -3,8 +3,8 @@ SPEC = {
     "props_module": "NDB.Props.C26",
     "corr_modules": ["NDB.Corr.C26", "NDB.Corr.C26bs"],
     "theorems": ["C26_refuted_delete", "C26_refuted_lookup", "C26_refuted_insert",
-                 "C26_single_leaf_partial", "C26_leaf_insert_partial", "C26_leaf_delete_partial", "C26_leaf_split_partial",
-                 "C26_descent_partial", "C26_binary_search_partial"],
+                 "C26_delete_exact", "C26_cursor_chain_partial", "C26_insert_fits_exact_partial", "C26_single_leaf_partial", "C26_single_leaf_dups_partial", "C26_leaf_insert_partial", "C26_leaf_delete_partial", "C26_leaf_split_partial",
+                 "C26_descent_partial", "C26_binary_search_partial", "C26_dups_delete_general"],
     "allowed_axioms": [],
     "harness_pkg": "hx_btree",
     "harness_bin": "c26",
@@ -29,14 +29,18 @@ SPEC = {
     "assumptions": [
         "one B-tree on a fresh pager file, single thread, no I/O errors; at most 65536 pages",
         "lookup = seek + key equality as read_node_property_from_store does; scan = the callers' loop `while is_valid { read; if !advance { break } }`",
-        "the full refinement statement C26_full_statement (all histories outside the three known classes) is NOT proved; it is sampled by the "
-        "correspondence (model = spec on every generated history outside the classes) — see manifest text",
+        "the full refinement statement C26_full_statement (all histories outside the two known classes, any tree depth) is NOT proved; "
+        "proved of it: every history that stays in one leaf (C26_single_leaf_partial, C26_single_leaf_dups_partial), the leaf-level and "
+        "descent components of the multi-level algorithm, and delete's exactness for every heap; beyond one leaf the refinement is sampled by "
+        "the correspondence (on every generated history outside the classes: model results = spec results, final scan = spec list, the executable "
+        "invariant BTree/Inv.v wf_state holds — leaves strictly sorted and inside their separator bounds, sibling chain = in-order traversal, "
+        "byte accounting consistent, no page visited twice — and in-order contents = spec list)",
     ],
     "manifest": {
         "category": "proof",
-        "text": "Faithful page-heap model of btree.rs with the code's byte accounting and binary searches; model = implementation is checked inside Coq on generated histories (results of every op, final root and every page image, after a real reopen). The property is REFUTED on the pinned code by four machine-checked witnesses (delete misses a stored pair among equal keys; lookup returns an old payload and a seek sees 5 of 9 equal keys after a leaf split; a scan stops at an emptied leaf with no duplicates at all; an insert of distinct keys panics when a median split half exceeds a page) = known findings K-C26-dups, K-C26-emptyleaf, K-C26-splitfit. Proved for all inputs (partial): see theorems named _partial. The refinement for all histories outside the classes is stated (C26_full_statement) but only sampled.",
+        "text": "Faithful page-heap model of btree.rs (code's byte accounting, its two hand-written binary searches, core::slice::binary_search_by, splits, sibling-walking cursor); model = implementation is checked inside Coq on generated histories: result of every op, final root and every page image, after real reopens. The property is REFUTED on the pinned code by machine-checked witnesses in the model, reproduced by the real code: K-C26-dups (with a key stored twice: delete misses a stored pair — proved for every key with three entries, C26_dups_delete_general; lookup returns an old payload and a seek sees 5 of 9 equal keys after a leaf split) and K-C26-splitfit (17 inserts of distinct keys of 2 and 900 bytes panic: a median split half exceeds a page). A third defect (a scan stopped at a leaf emptied by deletes, no duplicates needed) was repaired in /repo ff9d0a3; its witness is a regression. Proved for all inputs: C26_delete_exact (every heap: delete=true removes exactly one cell equal to the pair and changes nothing else; otherwise nothing changes); C26_single_leaf_partial (every history without a twice-stored key that never allocates a page: every insert/delete/lookup/seek/reopen result and the final scan equal the sorted multimap); C26_single_leaf_dups_partial (same with equal keys but no delete); C26_cursor_chain_partial (every heap, any depth: seek + scan over a well-formed sibling chain return the rest of the reached leaf and all following leaves; lookup is its head); C26_insert_fits_exact_partial (every heap, any depth: a non-splitting insert writes exactly the reached leaf, pair at the lower-bound slot); leaf insert position, delete search, median split + separator bounds, descent rule, binary_search_by on monotone lists. NOT proved: C26_full_statement for trees deeper than one leaf (separator/sibling-chain invariants across splits) — sampled by the correspondence only.",
         "design_ref": "DESIGN.md §5 C26",
-        "level_note": "Trusted: Coq kernel; hand-written model tied to the code by sampled correspondence (strong: whole page images); the conditional refinement theorem over the page heap is not proved, only its leaf-level components.",
-        "technique": "Rocq: executable page-heap model, vm_compute refutation witnesses, leaf-level invariant proofs; vm_compute model/implementation correspondence on generated histories",
+        "level_note": "Trusted: Coq kernel; hand-written model tied to the code by sampled correspondence (strong: whole page images after every history); the conditional refinement over multi-level trees is not proved, only the single-leaf case and the leaf-level/descent components.",
+        "technique": "Rocq: executable page-heap model, vm_compute refutation witnesses, invariant proofs by induction over histories (one-leaf domain) and over the binary-search loops; vm_compute model/implementation correspondence on generated histories",
     },
 }
